@@ -17,6 +17,9 @@ from .core import AnalysisError, Unfoldable
 
 
 class Opaque:
+    def __deepcopy__(self, memo):
+        return self           # immutable token
+
     def __init__(self, name):
         self.name = name
 
@@ -25,6 +28,9 @@ class Opaque:
 
 
 class Distinct:
+    def __deepcopy__(self, memo):
+        return self           # immutable token
+
     """A string constant different from every constant appearing in the program."""
     def __init__(self, name="bogus"):
         self.name = name
@@ -34,6 +40,9 @@ class Distinct:
 
 
 class Sym:
+    def __deepcopy__(self, memo):
+        return self           # immutable token
+
     """Symbolic number. facts: dict const -> relation in {'<','>','=='}; kind: int|float."""
     def __init__(self, name, kind, facts):
         self.name, self.kind, self.facts = name, kind, facts
@@ -75,6 +84,14 @@ class Returned(Exception):
         self.value = value
 
 
+class _Break(Exception):
+    pass
+
+
+class _Continue(Exception):
+    pass
+
+
 class Fork(Exception):
     """Truth value unknown: the driver re-runs with the decision forced both ways."""
     def __init__(self, site):
@@ -90,19 +107,25 @@ class Evaluator:
         self.max_depth = max_depth
         self.watch = set(watch)      # method names of external receivers whose calls are logged as effects
         self.effects = []
+        self._yields = []
+        self.unknown_attrs = set()
 
     # ------------------------------------------------------------------ driver
     def outcomes(self, func, args, selfenv=None):
         """All outcomes of calling func with abstract args: list of ('return', v) / ('raise', name)."""
+        import copy
         results = []
+        self.finals = []      # per outcome: the (mutated) copies of args and self-environment
         pending = [()]
         while pending:
             decisions = pending.pop()
             self._decisions = list(decisions)
             self._taken = []
             self.effects = []
+            self._yields = []
+            a_copy, s_copy = copy.deepcopy(dict(args)), copy.deepcopy(dict(selfenv or {}))
             try:
-                v = self.call(func, dict(args), dict(selfenv or {}), 0)
+                v = self.call(func, a_copy, s_copy, 0)
                 out = ("return", v, tuple(self.effects)) if self.watch else ("return", v)
             except Raised as r:
                 out = ("raise", r.exc, tuple(self.effects)) if self.watch else ("raise", r.exc)
@@ -113,6 +136,7 @@ class Evaluator:
                 continue
             if out not in results:
                 results.append(out)
+                self.finals.append((a_copy, s_copy))
             if len(results) > 16:
                 raise AnalysisError("decision table of %s explodes" % func.qual)
         return results
@@ -139,11 +163,14 @@ class Evaluator:
                 raise AnalysisError("abstract call of %s misses argument %s" % (func.qual, p))
         if func.vararg:
             env[func.vararg] = args.get("*", ())
+        self._yields.append([])
         try:
             self.block(func.node.body, env, func, depth)
         except Returned as r:
-            return r.value
-        return None
+            ys = self._yields.pop()
+            return tuple(ys) if func.is_generator else r.value
+        ys = self._yields.pop()
+        return tuple(ys) if func.is_generator else None
 
     # -------------------------------------------------------------- statements
     def block(self, stmts, env, f, depth):
@@ -183,9 +210,22 @@ class Evaluator:
                 it = tuple(it)
             if not isinstance(it, (tuple, list)):
                 raise AnalysisError("loop over a non-concrete sequence in %s" % f.loc(st))
+            broke = False
             for x in it:
                 self.assign(st.target, x, env, f)
-                self.block(st.body, env, f, depth)
+                try:
+                    self.block(st.body, env, f, depth)
+                except _Continue:
+                    continue
+                except _Break:
+                    broke = True
+                    break
+            if not broke:
+                self.block(st.orelse, env, f, depth)
+        elif isinstance(st, ast.Break):
+            raise _Break()
+        elif isinstance(st, ast.Continue):
+            raise _Continue()
         elif isinstance(st, ast.Pass):
             pass
         else:
@@ -195,7 +235,10 @@ class Evaluator:
         if isinstance(t, ast.Name):
             env[t.id] = v
         elif isinstance(t, ast.Attribute):
-            env[ast.unparse(t)] = v
+            if isinstance(t.value, ast.Name) and isinstance(env.get(t.value.id), dict):
+                env[t.value.id][t.attr] = v       # abstract object: the caller inspects it afterwards
+            else:
+                env[ast.unparse(t)] = v
         elif isinstance(t, ast.Tuple) and isinstance(v, (tuple, list)) and len(v) == len(t.elts):
             for a, b in zip(t.elts, v):
                 self.assign(a, b, env, f)
@@ -219,6 +262,8 @@ class Evaluator:
         if isinstance(e, ast.Name):
             if e.id in env:
                 return env[e.id]
+            if e.id in ("int", "str", "float", "bool", "list", "dict", "tuple", "set") and self.ctx.p.resolve_name(f.module, e.id) is None:
+                return {"int": int, "str": str, "float": float, "bool": bool, "list": list, "dict": dict, "tuple": tuple, "set": set}[e.id]
             try:
                 return self.ctx.p.fold(f.module, e)
             except Unfoldable:
@@ -230,6 +275,11 @@ class Evaluator:
             base = self.expr(e.value, env, f, depth) if not isinstance(e.value, ast.Name) or e.value.id in env else None
             if isinstance(base, dict) and e.attr in base:
                 return base[e.attr]
+            if isinstance(base, dict) and any(k.endswith("()") or k in ("cardinality", "st_type", "name") for k in base):
+                # an attribute of a model object that the reference domain does not know: its value is unknown,
+                # so a decision that consults it forks and cannot equal the reference row
+                self.unknown_attrs.add(k)
+                return Opaque("unknown attribute " + k)
             if isinstance(e.value, ast.Name) and e.value.id not in env:
                 try:
                     return self.ctx.p.fold(f.module, e)
@@ -295,6 +345,25 @@ class Evaluator:
             return self.callexpr(e, env, f, depth)
         if isinstance(e, ast.Dict):
             return {self.expr(k, env, f, depth): self.expr(v, env, f, depth) for k, v in zip(e.keys, e.values)}
+        if isinstance(e, ast.Yield):
+            self._yields[-1].append(self.expr(e.value, env, f, depth) if e.value is not None else None)
+            return None
+        if isinstance(e, ast.Lambda):
+            return Opaque("lambda")
+        if isinstance(e, (ast.ListComp, ast.GeneratorExp, ast.SetComp)) and len(e.generators) == 1:
+            gen = e.generators[0]
+            it = self.expr(gen.iter, env, f, depth)
+            if isinstance(it, dict):
+                it = tuple(it)
+            if not isinstance(it, (tuple, list)):
+                raise AnalysisError("comprehension over a non-concrete sequence (%s)" % f.loc(e))
+            out = []
+            sub = dict(env)
+            for x in it:
+                self.assign(gen.target, x, sub, f)
+                if all(self.truth(self.expr(c, sub, f, depth), c) for c in gen.ifs):
+                    out.append(self.expr(e.elt, sub, f, depth))
+            return out
         raise AnalysisError("expression %s not supported by the table extractor (%s)" % (type(e).__name__, f.loc(e)))
 
     def compare(self, op, a, b, site):
@@ -374,6 +443,13 @@ class Evaluator:
                 return len(args[0])
             if fn.id == "abs" and args and isinstance(args[0], (int, float)):
                 return abs(args[0])
+            if fn.id == "sum" and args and isinstance(args[0], (list, tuple)) and all(isinstance(x, (int, bool)) for x in args[0]):
+                return sum(args[0])
+            if fn.id in ("any", "all") and args and isinstance(args[0], (list, tuple)):
+                vals = [self.truth(x, e) for x in args[0]]
+                return any(vals) if fn.id == "any" else all(vals)
+            if fn.id in ("list", "tuple") and args and isinstance(args[0], (list, tuple)):
+                return list(args[0]) if fn.id == "list" else tuple(args[0])
             if fn.id == "str" and args:
                 a = args[0]
                 return str(a) if isinstance(a, (int, float, str)) else Cat([a])
@@ -393,7 +469,10 @@ class Evaluator:
         if isinstance(fn, ast.Attribute):
             recv_name = fn.value.id if isinstance(fn.value, ast.Name) else ast.unparse(fn.value)
             if recv_name in env and isinstance(env[recv_name], dict) and (fn.attr + "()") in env[recv_name]:
-                return env[recv_name][fn.attr + "()"]
+                v = env[recv_name][fn.attr + "()"]
+                if fn.attr in self.watch:
+                    self.effects.append((fn.attr,) + tuple(freeze(a) for a in args) + tuple(sorted((k, freeze(x)) for k, x in kws.items())))
+                return v(env[recv_name]) if callable(v) else v
             if recv_name in env and hasattr(env[recv_name], "items_") and fn.attr == "get" and args and isinstance(args[0], int):
                 return env[recv_name].items_[args[0]]
             if fn.attr in self.watch:
